@@ -149,9 +149,9 @@ func (sc rscenario) name() string {
 func rscenarios(thorough bool) []rscenario {
 	if thorough {
 		return []rscenario{
-			{"one tag, one remote", []string{"x"}, []string{"A"}, []int{0, 1, 2}, 2, 2, 8},
-			{"two tags, one remote", []string{"x", "y"}, []string{"A"}, []int{0, 1}, 1, 1, 6},
-			{"one tag, two remotes", []string{"x"}, []string{"A", "B"}, []int{0, 1}, 1, 1, 6},
+			{"one tag, one remote", []string{"x"}, []string{"A"}, []int{0, 1, 2}, 2, 2, 10},
+			{"two tags, one remote", []string{"x", "y"}, []string{"A"}, []int{0, 1}, 1, 1, 8},
+			{"one tag, two remotes", []string{"x"}, []string{"A", "B"}, []int{0, 1}, 1, 1, 8},
 			{"two tags, two remotes", []string{"x", "y"}, []string{"A", "B"}, []int{0, 1}, 2, 2, 5},
 		}
 	}
